@@ -25,6 +25,7 @@ EXPLANATION = (
     "of the re-binning (first bin [l,r], others (l,r]) puts every range in [0,max] into exactly one of two adjacent bins on "
     "every ordering of the range relative to the edges. Not decided: path independence across segment borders, idempotence "
     "and continuity over the whole Haigh plane.")
+EXPLANATION += (' R-C12-4 additionally requires both aggregation paths (with and without additional index levels) to use the verified membership predicate and no library binning. R-C12-5: the validated R-segment order reaches the distance sort of the segment transformer unchanged; the two unbounded segments tie in distance, so their processing order is the validated order.')
 ASSUMPTIONS = ["pandas IntervalIndex.get_indexer_for maps interval values to their positions",
                "1 - R_goal + M (1 + R_goal) != 0 for admissible slopes"]
 
